@@ -596,12 +596,17 @@ class PKey:
         cipher = self._CIPHER_TABLE[encryption_type]["cipher"]
         keysize = self._CIPHER_TABLE[encryption_type]["keysize"]
         mode = self._CIPHER_TABLE[encryption_type]["mode"]
-        salt = unhexlify(b(saltstr))
-        key = util.generate_key_bytes(md5, salt, password, keysize)
-        decryptor = Cipher(
-            cipher(key), mode(salt), backend=default_backend()
-        ).decryptor()
-        decrypted_data = decryptor.update(data) + decryptor.finalize()
+        try:
+            salt = unhexlify(b(saltstr))
+            key = util.generate_key_bytes(md5, salt, password, keysize)
+            decryptor = Cipher(
+                cipher(key), mode(salt), backend=default_backend()
+            ).decryptor()
+            decrypted_data = decryptor.update(data) + decryptor.finalize()
+        except ValueError as e:
+            # salt that is not hex or of the wrong size, ciphertext that is
+            # not a whole number of blocks (binascii.Error is a ValueError)
+            raise SSHException("Corrupt private key file: {}".format(e))
         unpadder = padding.PKCS7(cipher.block_size).unpadder()
         try:
             return unpadder.update(decrypted_data) + unpadder.finalize()
